@@ -56,6 +56,14 @@ def idle (s : St) : List Res := s.live.filter (!·.held)
 
 def expired (cfg : Cfg) (now : Nat) (r : Res) : Bool := decide (now - r.born > cfg.maxLife)
 
+/-- update every resource with the given id (ids are unique) by an id-preserving function -/
+def upd (l : List Res) (id : Nat) (f : Res → Res) : List Res := l.map fun x => if x.id = id then f x else x
+def setHeld (r : Res) : Res := { r with held := true }
+def setIdle (now : Nat) (r : Res) : Res := { r with held := false, lastUsed := now }
+def setClosed (r : Res) : Res := { r with clientClosed := true }
+def fresh (s : St) : Res := { id := s.nextId, born := s.now, lastUsed := s.now, held := true, clientClosed := false }
+def isDead (cfg : Cfg) (now : Nat) (r : Res) : Bool := expired cfg now r || decide (now - r.lastUsed > cfg.maxIdle)
+
 def destroy (s : St) (id : Nat) : St :=
   { s with live := s.live.filter (·.id != id), destroyed := id :: s.destroyed }
 
@@ -66,12 +74,10 @@ def step (cfg : Cfg) (s : St) : Op → St
     else
       match (idle s)[pick % (idle s).length]? with
       | some r =>
-        { s with live := s.live.map (fun x => if x.id = r.id then { x with held := true } else x),
-                 handles := (h, r.id) :: s.handles }
+        { s with live := upd s.live r.id setHeld, handles := (h, r.id) :: s.handles }
       | none =>
         if s.live.length < cfg.max then
-          { s with live := { id := s.nextId, born := s.now, lastUsed := s.now, held := true, clientClosed := false } :: s.live,
-                   nextId := s.nextId + 1, handles := (h, s.nextId) :: s.handles }
+          { s with live := fresh s :: s.live, nextId := s.nextId + 1, handles := (h, s.nextId) :: s.handles }
         else s      -- blocks until the caller's context ends
   | .release h =>
     match lookup s.handles h with
@@ -83,19 +89,17 @@ def step (cfg : Cfg) (s : St) : Op → St
       | some r =>
         if !r.held then { s with handles := hs, corrupt := true }   -- `Value()` panics on an idle resource
         else if r.clientClosed || expired cfg s.now r || s.closed then destroy { s with handles := hs } id
-        else { s with handles := hs,
-                      live := s.live.map (fun x => if x.id = id then { x with held := false, lastUsed := s.now } else x) }
+        else { s with handles := hs, live := upd s.live id (setIdle s.now) }
   | .fail h =>
     match lookup s.handles h with
     | none => s
-    | some id => { s with live := s.live.map (fun x => if x.id = id then { x with clientClosed := true } else x) }
+    | some id => { s with live := upd s.live id setClosed }
   | .advance dt => { s with now := s.now + dt }
   | .health =>
     if s.closed then s
     else
-      let dead := (idle s).filter (fun r => expired cfg s.now r || decide (s.now - r.lastUsed > cfg.maxIdle))
-      { s with live := s.live.filter (fun r => !(dead.any (·.id == r.id))),
-               destroyed := dead.map (·.id) ++ s.destroyed }
+      { s with live := s.live.filter (fun r => r.held || !isDead cfg s.now r),
+               destroyed := ((idle s).filter (isDead cfg s.now)).map (·.id) ++ s.destroyed }
   | .close =>
     -- idle resources are destroyed at once, held ones when they are released
     { s with closed := true, live := s.live.filter (·.held), destroyed := (idle s).map (·.id) ++ s.destroyed }
